@@ -33,8 +33,23 @@ Definition kw_parent : list N := [112;97;114;101;110;116]%N.
 
 (* ------------------------------------------------------------ printing *)
 Definition has (c : N) (s : list N) : bool := existsb (N.eqb c) s.
-(* the quote used for a fixed name: single quotes unless the name contains one *)
-Definition quote_for (f : list N) : N := if has c_squote f then c_dquote else c_squote.
+(* f contains a q that is not escaped (not the second character of a backslash-q pair, pairs
+   taken from left to right as string_value's regex does) *)
+Fixpoint unesc (q : N) (f : list N) : bool :=
+  match f with
+  | [] => false
+  | c :: f' =>
+      if N.eqb c q then true
+      else if N.eqb c c_bslash then
+        match f' with
+        | [] => false
+        | c2 :: f'' => if N.eqb c2 q then unesc q f'' else unesc q f'
+        end
+      else unesc q f'
+  end.
+(* the quote used for a fixed name: single quotes unless the name contains an unescaped one
+   (RRELNavigation.__repr__ after fixes 0c7cac7 and 338be55) *)
+Definition quote_for (f : list N) : N := if unesc c_squote f then c_dquote else c_squote.
 
 (* '^' is stored as ( .. )* in front of the path; it prints as such *)
 Fixpoint t_elem (e : elem) : list tok :=
